@@ -162,6 +162,37 @@ fn tree_walk(node: gimli::EntriesTreeNode<Rdr>, depth: usize, limit: &mut usize,
     }
 }
 
+/// A clone taken at any position must continue exactly like an uninterrupted iteration, and the original must
+/// not be disturbed by the clone.
+fn clone_check<I: Clone>(make: &dyn Fn() -> Option<I>, step: &dyn Fn(&mut I) -> Option<String>, what: &str, max_positions: usize) -> R {
+    let Some(mut it) = make() else { return Ok(()) };
+    let mut baseline = Vec::new();
+    while let Some(s) = step(&mut it) {
+        let stop = s.starts_with("error");
+        baseline.push(s);
+        if stop || baseline.len() > 3000 {
+            break;
+        }
+    }
+    for k in 0..=baseline.len().min(max_positions) {
+        let Some(mut a) = make() else { return Ok(()) };
+        for _ in 0..k {
+            step(&mut a);
+        }
+        let mut c = a.clone();
+        let ahead = step(&mut a);
+        for (j, want) in baseline.iter().enumerate().skip(k) {
+            let got = step(&mut c);
+            ensure_eq!(got.as_ref(), Some(want), format!("c20/clone/{}", what), "clone taken after {} items, item #{}", k, j);
+            if want.starts_with("error") {
+                break;
+            }
+        }
+        ensure_eq!(ahead.as_ref(), baseline.get(k), format!("c20/clone/{}/original-disturbed", what), "after cloning at {}", k);
+    }
+    Ok(())
+}
+
 fn check_entries(ch: &mut Choices, cx: &mut Ctx) -> R {
     cx.label("entry buffers, trees, clones, caches");
     let d = gen_fdwarf(ch, &GenOpts { max_units: 3, max_dies: 12, lines: true, bad_refs: 0 });
@@ -413,6 +444,74 @@ fn check_entries(ch: &mut Choices, cx: &mut Ctx) -> R {
             }
         }
     }
+    // operation iterators (the list iterators are not Clone)
+    for h in headers.iter() {
+        let Ok(unit) = dwarf.unit(*h) else { continue };
+        let enc = unit.encoding();
+        let mut cur = unit.entries();
+        let mut budget = 24;
+        while let Ok(Some(e)) = cur.next_dfs() {
+            for a in e.attrs() {
+                if budget == 0 {
+                    break;
+                }
+                let v = a.value();
+                match v {
+                    gimli::AttributeValue::Exprloc(x) => {
+                        budget -= 1;
+                        clone_check(
+                            &|| Some(x.clone().operations(enc)),
+                            &|it| match it.next() {
+                                Ok(Some(op)) => Some(format!("{:?}", op)),
+                                Ok(None) => None,
+                                Err(e) => Some(format!("error {:?}", e)),
+                            },
+                            "operations",
+                            8,
+                        )?;
+                    }
+                    _ => {}
+                }
+            }
+        }
+    }
+    // call frame entries
+    {
+        let f = crate::c12::gen_frame(ch);
+        let built = crate::cfimodel::build_frame(f.eh, f.big, &f.cies, &f.fdes, &f.order, f.eh);
+        let endian = if f.big { RunTimeEndian::Big } else { RunTimeEndian::Little };
+        let bases = gimli::BaseAddresses::default().set_eh_frame(0);
+        use gimli::UnwindSection;
+        if f.eh {
+            let mut sec = gimli::EhFrame::new(&built.bytes, endian);
+            sec.set_address_size(f.address_size);
+            clone_check(
+                &|| Some(sec.entries(&bases)),
+                &|it| match it.next() {
+                    Ok(Some(gimli::CieOrFde::Cie(c))) => Some(format!("cie@{}", c.offset())),
+                    Ok(Some(gimli::CieOrFde::Fde(p))) => Some(format!("fde {:?}", p.parse(gimli::EhFrame::cie_from_offset).map(|f| (f.offset(), f.initial_address(), f.len())))),
+                    Ok(None) => None,
+                    Err(e) => Some(format!("error {:?}", e)),
+                },
+                "cfi-entries",
+                8,
+            )?;
+        } else {
+            let mut sec = gimli::DebugFrame::new(&built.bytes, endian);
+            sec.set_address_size(f.address_size);
+            clone_check(
+                &|| Some(sec.entries(&bases)),
+                &|it| match it.next() {
+                    Ok(Some(gimli::CieOrFde::Cie(c))) => Some(format!("cie@{}", c.offset())),
+                    Ok(Some(gimli::CieOrFde::Fde(p))) => Some(format!("fde {:?}", p.parse(gimli::DebugFrame::cie_from_offset).map(|f| (f.offset(), f.initial_address(), f.len())))),
+                    Ok(None) => None,
+                    Err(e) => Some(format!("error {:?}", e)),
+                },
+                "cfi-entries",
+                8,
+            )?;
+        }
+    }
     // unit headers iterator
     {
         let step = |it: &mut gimli::DebugInfoUnitHeadersIter<Rdr>| -> Option<String> {
@@ -455,7 +554,7 @@ impl Prop for C20 {
         "C20"
     }
     fn rule(&self) -> &'static str {
-        "(a) pools of 2-4 generated FDEs (the C06 generator: every call-frame instruction, programs that fail in the CIE's initial instructions, mid-FDE, by row-stack or rule overflow, CIEs with 0, 1 and many initial rules, extra DW_CFA_GNU_args_size) evaluated on one UnwindContext (heap storage and fixed storages 2x2, 4x4, 3x5, 193x5) along every ordered pair, every triple for pools <= 3 and four generated histories of length 3-7 whose steps consume all rows, one row or three rows: each step's rows and outcome must equal those on a fresh context; (b) one DebuggingInformationEntry buffer reused across all entries of generated units vs a fresh buffer per entry; (c) EntriesTree::root called again after 1-3 partial traversals of generated length vs a fresh tree; (d) clones of the depth-first cursor, of LineRows and of the unit-header iterator taken at every position (the original is advanced further before the clone moves) vs an uninterrupted iteration; (e) Dwarf::unit for every unit with the abbreviation cache populated under Duplicates / All, in forward or reverse order and twice, incl. units sharing one abbreviation table and a unit whose abbreviation offset is invalid, vs the uncached result. Non-trivial = a pool with both failing and succeeding FDEs, or a re-rooted tree of >= 3 entries; distinct by choice string."
+        "(a) pools of 2-4 generated FDEs (the C06 generator: every call-frame instruction, programs that fail in the CIE's initial instructions, mid-FDE, by row-stack or rule overflow, CIEs with 0, 1 and many initial rules, extra DW_CFA_GNU_args_size) evaluated on one UnwindContext (heap storage and fixed storages 2x2, 4x4, 3x5, 193x5) along every ordered pair, every triple for pools <= 3 and four generated histories of length 3-7 whose steps consume all rows, one row or three rows: each step's rows and outcome must equal those on a fresh context; (b) one DebuggingInformationEntry buffer reused across all entries of generated units vs a fresh buffer per entry; (c) EntriesTree::root called again after 1-3 partial traversals of generated length vs a fresh tree; (d) clones of the depth-first cursor, of LineRows, of operation iterators, of the CFI entries iterator and of the unit-header iterator taken at every position (the original is advanced further before the clone moves) vs an uninterrupted iteration; (e) Dwarf::unit for every unit with the abbreviation cache populated under Duplicates / All, in forward or reverse order and twice, incl. units sharing one abbreviation table and a unit whose abbreviation offset is invalid, vs the uncached result. Non-trivial = a pool with both failing and succeeding FDEs, or a re-rooted tree of >= 3 entries; distinct by choice string."
     }
     fn assumptions(&self) -> Vec<&'static str> {
         vec!["fresh state is the oracle: the same gimli code on newly created contexts, buffers, trees, iterators and an unpopulated cache"]
